@@ -257,6 +257,9 @@ def run_sync(case):
                 return [line, line] if data[:1] == b"t" else [line]
             if foreign is not None:
                 extra = [("H%04X\n" % ((0xFE00 + 17 * n_cmd + k) & 0xFFFF)).encode() for k in range(foreign[n_cmd % len(foreign)])]
+                # ... and the hat may take its time: read timeouts (empty reads) before the answer, five reads in all
+                slow = case.get("empties") or [0]
+                extra = [b""] * min(slow[n_cmd % len(slow)], 4 - len(extra)) + extra
 
                 def script(data, line=line, extra=extra):      # noqa: F811
                     return extra + ([line, line] if data[:1] == b"t" else [line])
@@ -726,6 +729,8 @@ def sync_case(draw):
             more.append(c)
         case["cmds"] = cmds + more
         case["foreign"] = draw(st.lists(st.integers(0, 3), min_size=1, max_size=5))
+        if draw(st.booleans()):
+            case["empties"] = draw(st.lists(st.integers(0, 4), min_size=1, max_size=5))
     return case
 
 
